@@ -1,3 +1,27 @@
+#!/usr/bin/env python3
+"""Triage aid, NOT a registered check (see DESIGN.md, head and section 3).
+
+Reproduces suspected defects against the real gateway binary so that a rule's report on
+the unchanged tree can be classified as a genuine defect (failing input shown) rather
+than a false alarm.  Usage (offline):
+
+    export GOFLAGS=-mod=mod GOPROXY=off GOSUMDB=off GOTOOLCHAIN=local
+    (cd /repo && go build -o /tmp/vgw ./cmd/versitygw)
+    python3 /verif/triage/confirm_defects.py ; rm -rf /tmp/vgw /tmp/triage
+
+Observed on the pinned tree (2026-09-28):
+  T0  bogus-sig PUT /b/k0                    -> 403 (control: plain PUT is verified)
+  T1  bogus-sig PUT /evil/                   -> 200, bucket directory created
+  T1b bogus-sig PUT /b/?policy               -> 200, user.policy xattr set
+  T2  bogus-sig unsigned-trailer PUT /b/k2   -> 200, object stored
+  T3  bogus-sig PUT /b/dir/                  -> 200, directory object created
+  T4  valid-sig GET /b/../../canary.txt      -> 200 with the canary outside the root
+  T4b valid-sig PUT /b/../../pwned           -> 200, file created outside the root
+  T4c valid-sig DELETE /b/k?uploadId=../../../../../victimdir -> 204, tree removed
+  T5  Range: bytes=-2                        -> 206, no Content-Range, whole body
+  T6  PUT /b?ownershipControls, empty rules  -> process exits (index out of range)
+  T7  unsigned chunk size -1 (bogus sig)     -> process exits (makeslice)
+"""
 import http.client, subprocess, time, os, shutil, datetime, hashlib, hmac, sys, socket
 
 ROOT='/tmp/triage/gw/root'; 
